@@ -503,6 +503,7 @@ def check_em(case, out):
     out.sample = {"obs": obs, "lat": lat, "edges": case["edges"], "n_rows": len(case["rows"]), "loglik": lls}
 
 
+THOROUGH_SCALE = 3  # thorough-tier example counts are n["thorough"] x this (one thorough run then takes roughly 5-10 minutes on 16 cores)
 SUBCHECKS = [
     Sub("fit", check_fit, strategy=lambda tier: fit_case(), n={"quick": 120, "thorough": 2000},
         shards={"quick": 10, "thorough": 16}, doc="MLE / Bayesian (K2, BDeu, Dirichlet) through get_parameters, estimate_cpd, model.fit, DAG.fit vs closed forms; validation; row/column/edge-order invariance"),
